@@ -1,7 +1,8 @@
 """X06 (extension) - obifind, and the taxonomy options of obiannotate (statements: extra/X06.md).
 
 M: TLC on spec/L3_command/TaxFindMC.tla (TaxFind.tla on Tax.tla of C14): every labelled rooted tree up to MaxN
-   nodes x rank / name / alternative-name / alias variants x 17 obifind command lines and 8 obiannotate runs;
+   nodes x rank / name / alternative-name / alias variants x 17 obifind command lines, 8 obiannotate runs and
+   4 --add-lca-in runs;
    theorems: restrictions are an intersection / union of clades, name laws (-a adds, -F = ^lit$, anchors remove),
    --parents order, line layout, alias transparency of the annotations, the code as written departs only for a
    regular expression over all names; the verdict operators refuse a lost / doubled / moved line.  One exported
@@ -143,9 +144,12 @@ def main(ctx):
                      "find.names.regexp.allnames.rank.clades.withpath", "find.names.regexp.clades",
                      "find.path", "find.path.withpath", "find.path.rank.clades", "find.path.fails",
                      "annot.sci.fails", "annot.path.rank", "annot.atrank", "annot.path.rank.fails", "annot.atrank.path.rank.sci.fails",
+                     "scn.lca_several_acceptable", "scn.lca_error_reported",
                      "scn.empty_block", "scn.block_of_several", "scn.annot_without_taxid"):
             ctx.expect_vacuity("class " + need, ctx.classes.get(need, 0))
     if not ctx.violations:
+        for need in ("lca.exact", "lca.tolerant"):
+            ctx.expect_vacuity("class " + need, sum(v for k, v in ctx.classes.items() if k.startswith(need)))
         # the first alternative name of a taxon decides the answer: listed (statement) or lost (code as written)
         ctx.expect_vacuity("class first alternative name decides",
                            ctx.classes.get("scn.first_alt_name_decides", 0) + ctx.classes.get("known.first_alt_name_lost", 0))
@@ -174,7 +178,7 @@ def main(ctx):
             ctx.expect_vacuity("trace runs of class " + need, kinds.get(need, 0))
         ctx.expect_vacuity("trace obiannotate runs", sum(v for k, v in kinds.items() if k.startswith("annot")))
         for need in ("lca.exact", "lca.tolerant"):
-            ctx.expect_vacuity("trace runs of class " + need, kinds.get(need, 0))
+            ctx.expect_vacuity("trace runs of class " + need, sum(v for k, v in kinds.items() if k.startswith(need)))
     sizes = [len(e["parent"]) for e in events if e["e"] == "load"]
     ctx.extra["trace_taxonomies"] = len(sizes)
     ctx.extra["trace_max_nodes"] = max(sizes)
